@@ -35,7 +35,13 @@ def answer (line : String) : String :=
   | [] => "bad-op\tbad:empty request\tbad-op"
   | verb :: args =>
     match dispatch verb args obs with
-    | some r => s!"{r.model}\t{r.verdict}\t{r.tag}"
+    | some r =>
+      -- a lab reports a panic of the code under test as `panic:<hex of the message>`; whatever the
+      -- lab, none of the modelled operations may panic on the inputs the labs generate
+      if obs.startsWith "panic:" then
+        let msg := String.fromUTF8! (ByteArray.mk ((unhexBytes ((obs.drop 6).toString)).map (·.toUInt8)).toArray)
+        s!"{r.model}\tbad:the implementation panicked while executing this request: {msg}\t{r.tag}"
+      else s!"{r.model}\t{r.verdict}\t{r.tag}"
     | none => "bad-op\tbad:unknown or malformed request\tbad-op"
 
 partial def loop (h : IO.FS.Stream) (out : IO.FS.Stream) : IO Unit := do
